@@ -12,6 +12,15 @@ def _c(text, ref):
 
 
 CLAIMS = {
+    "C06": _c("Bounded symbolic model checking of the real incremental executor / publisher / work queue / stream item queue on a "
+              "deterministic event loop with the stop point as a solver variable: no stop, aclose() of the payload stream after "
+              "0..3 payloads, abort signal (three kinds of reason) before the 0..5th settlement, source iterator raising at item "
+              "0..2, resolver errors; over 6 templates (12 in thorough), 4 list-source kinds, early execution on/off, symbolic "
+              "directive flags, sync/awaitable positions and completion order. Assertions: the caller is released, the loop is "
+              "quiescent, every started source is closed exactly once, the work-finished hook fires exactly once after all "
+              "resolver coroutines settled. Eleven genuine defect classes found this way are recorded in known_findings.json "
+              "(each with the failing condition; three with stand-alone asyncio reproductions) and reported as KNOWN-FINDING.",
+              "DESIGN.md section 7, C06"),
     "C04": _c("Bounded symbolic model checking of the real experimental_execute_incrementally on a deterministic event loop: 12 "
               "request templates with @defer/@stream (nested, overlapping at different depths, inside streamed items, shared "
               "execution groups, fragments deferred and plain, errors) whose directive `if` values, sync/awaitable resolver "
